@@ -1551,6 +1551,12 @@ impl Tree {
 		// discarded timeline and would be served for the re-used ids.
 		self.core.inner.opts.block_cache.clear();
 
+		// Likewise the value log: its writer, read handles and next file id still
+		// describe the files that were just replaced.
+		if let Some(ref vlog) = self.core.inner.vlog {
+			vlog.reset_after_restore()?;
+		}
+
 		// Create a new LevelManifest from the current path
 		let new_levels = LevelManifest::new(Arc::clone(&self.core.inner.opts))?;
 
